@@ -195,12 +195,12 @@ func replaysFor(prop string) []string {
 
 // knownFindings returns the ids of findings with status "known" for a property.
 type finding struct {
-	ID        string `json:"id"`
-	Property  string `json:"property"`
-	Status    string `json:"status"`
-	Signature string `json:"signature"`
-	Replay    string `json:"replay"`
-	Commit    string `json:"commit,omitempty"`
+	ID        string   `json:"id"`
+	Property  string   `json:"property"`
+	Status    string   `json:"status"`
+	Signature string   `json:"signature"`
+	Replay    string   `json:"replay"`
+	Commit    string   `json:"commit,omitempty"`
 	Also      []string `json:"also,omitempty"`
 }
 
